@@ -7,25 +7,482 @@ import Rtcp.Proofs.FciLemmas
 namespace Rtcp.Proofs
 open Rtcp Rtcp.Impl Rtcp.Spec
 
+/-! ## the NACK iterator -/
+
+/-- the sequence numbers of word `(pid, blp)` from mask position `m` (1-based) on -/
+def nackTail (pid blp m : Nat) : List Nat :=
+  ((List.range' (m - 1) (17 - m)).filter (fun k => blp.testBit k)).map (fun k => (pid + k + 1) % 65536)
+
+theorem decode_eq_tail (pid blp : Nat) : NackWord.decode ⟨pid, blp⟩ = pid :: nackTail pid blp 1 := by
+  simp [NackWord.decode, nackTail, List.range_eq_range']
+
+theorem findBit_spec (pid blp m : Nat) (hm : 1 ≤ m) :
+    match Nack.findBit blp m with
+    | some j => m ≤ j ∧ j ≤ 16 ∧ nackTail pid blp m = (pid + j) % 65536 :: nackTail pid blp (j + 1)
+    | none => nackTail pid blp m = [] := by
+  fun_induction Nack.findBit blp m with
+  | case1 k hk =>
+    have : 17 - k = 0 := by omega
+    simp [nackTail, this]
+  | case2 k hk hbit =>
+    refine ⟨Nat.le_refl _, by omega, ?_⟩
+    have e1 : 17 - k = (17 - (k + 1)) + 1 := by omega
+    have e2 : k - 1 + 1 = k := by omega
+    have e3 : pid + (k - 1) + 1 = pid + k := by omega
+    unfold nackTail
+    rw [e1, List.range'_succ, List.filter_cons, if_pos hbit, List.map_cons, e2, e3]
+    simp
+  | case3 k hk hbit ih =>
+    have ih := ih (by omega)
+    have e1 : 17 - k = (17 - (k + 1)) + 1 := by omega
+    have e2 : k - 1 + 1 = k := by omega
+    have step : nackTail pid blp k = nackTail pid blp (k + 1) := by
+      unfold nackTail
+      rw [e1, List.range'_succ, List.filter_cons, if_neg hbit, e2]
+      simp
+    rw [step]
+    split at ih
+    · exact ⟨by omega, ih.2.1, ih.2.2⟩
+    · exact ih
+
+
+theorem drop_len {d : Bytes} {i : Nat} {a b c e : UInt8} {rest : Bytes}
+    (hr : d.drop (i * 4) = a :: b :: c :: e :: rest) : ¬ (i * 4 + 3 ≥ d.length) ∧ i * 4 ≤ d.length := by
+  have := congrArg List.length hr
+  simp at this
+  omega
+
+theorem next_end {ε : Type} (d : Bytes) (i : Nat) (h : i * 4 + 3 ≥ d.length) :
+    (Nack.next d (i, 0) : R ε _) = .ok (none, (i, 0)) := by
+  simp [Nack.next, h]
+
+theorem next_start {ε : Type} (d : Bytes) (i : Nat) {a b c e : UInt8} {rest : Bytes}
+    (hr : d.drop (i * 4) = a :: b :: c :: e :: rest) :
+    (Nack.next d (i, 0) : R ε _) = .ok (some (a.toNat * 256 + b.toNat).toUInt16, (i, 1)) := by
+  obtain ⟨h1, h2⟩ := drop_len hr
+  simp [Nack.next, h1, sliceFrom_le h2, hr, slice, fromBe16]
+
+theorem next_wrap {ε : Type} (d : Bytes) (i m : Nat) (hm : m > 16) :
+    (Nack.next d (i, m) : R ε _) = Nack.next d (i + 1, 0) := by
+  simp [Nack.next, hm]
+
+theorem next_zero {ε : Type} (d : Bytes) (i : Nat) :
+    (Nack.next d (i, 0) : R ε _) =
+      (if i * 4 + 3 ≥ d.length then pure (none, (i, 0))
+       else do
+          let e ← sliceFrom d (i * 4)
+          let base ← fromBe16 (← slice e 0 2)
+          let _ ← (fromBe16 (← slice e 2 4) : R ε UInt16)
+          pure (some base, (i, 1))) := by
+  simp [Nack.next]
+
+theorem next_mid {ε : Type} (d : Bytes) (i m : Nat) (hm1 : 1 ≤ m) (hm : m ≤ 16) {a b c e : UInt8} {rest : Bytes}
+    (hr : d.drop (i * 4) = a :: b :: c :: e :: rest) :
+    (Nack.next d (i, m) : R ε _) =
+      match Nack.findBit (c.toNat * 256 + e.toNat) m with
+      | some j => .ok (some ((a.toNat * 256 + b.toNat + j) % 65536).toUInt16, (i, j + 1))
+      | none => Nack.next d (i + 1, 0) := by
+  obtain ⟨h1, h2⟩ := drop_len hr
+  have hm' : ¬ m > 16 := by omega
+  have hm0 : (m == 0) = false := by simp; omega
+  have ha := a.toNat_lt
+  have hb := b.toNat_lt
+  have hc := c.toNat_lt
+  have he := e.toNat_lt
+  rw [next_zero]
+  unfold Nack.next
+  simp only [hm', if_false, h1, sliceFrom_le h2, hr, R.ok_bind]
+  simp only [slice, fromBe16, hm0]
+  have hmod : (c.toNat * 256 + e.toNat) % 65536 = c.toNat * 256 + e.toNat := Nat.mod_eq_of_lt (by omega)
+  cases hfb : Nack.findBit (c.toNat * 256 + e.toNat) m <;> simp [hmod, hfb]
+
+theorem collect_some {ε : Type} (d : Bytes) (fuel : Nat) (st st' : Nack.St) (v : UInt16) (acc : List UInt16)
+    (h : (Nack.next d st : R ε _) = .ok (some v, st')) :
+    (Nack.collect d (fuel + 1) st acc : R ε _) = Nack.collect d fuel st' (acc ++ [v]) := by
+  simp only [Nack.collect, h]
+
+theorem collect_none {ε : Type} (d : Bytes) (fuel : Nat) (st st' : Nack.St) (acc : List UInt16)
+    (h : (Nack.next d st : R ε _) = .ok (none, st')) :
+    (Nack.collect d (fuel + 1) st acc : R ε _) = .ok (acc, true) := by
+  simp only [Nack.collect, h]
+
+theorem collect_congr {ε : Type} (d : Bytes) (fuel : Nat) (st st' : Nack.St) (acc : List UInt16)
+    (h : (Nack.next d st : R ε _) = Nack.next d st') :
+    (Nack.collect d (fuel + 1) st acc : R ε _) = Nack.collect d (fuel + 1) st' acc := by
+  simp only [Nack.collect, h]
+
+theorem drop_next {d : Bytes} {i : Nat} {a b c e : UInt8} {rest : Bytes}
+    (hr : d.drop (i * 4) = a :: b :: c :: e :: rest) :
+    d.drop ((i + 1) * 4) = rest ∧ d.length - 4 * i = rest.length + 4 := by
+  constructor
+  · have : (i + 1) * 4 = i * 4 + 4 := by omega
+    rw [this, ← List.drop_drop, hr]; rfl
+  · have := congrArg List.length hr
+    simp at this
+    omega
+
+theorem nackDecode_cons4 (a b c e : UInt8) (rest : Bytes) :
+    nackDecode (a :: b :: c :: e :: rest)
+      = NackWord.decode ⟨a.toNat * 256 + b.toNat, c.toNat * 256 + e.toNat⟩ ++ nackDecode rest := by
+  simp [nackDecode, words32]
+
+theorem nackTail_17 (pid blp : Nat) : nackTail pid blp 17 = [] := by simp [nackTail]
+
+theorem collect_spec {ε : Type} (d : Bytes) : ∀ fuel : Nat,
+    (∀ (i : Nat) (acc : List UInt16), 5 * (d.length - 4 * i) + 1 ≤ fuel →
+      (Nack.collect d fuel (i, 0) acc : R ε _)
+        = .ok (acc ++ (nackDecode (d.drop (i * 4))).map Nat.toUInt16, true)) ∧
+    (∀ (i m : Nat) (acc : List UInt16) (a b c e : UInt8) (rest : Bytes),
+      d.drop (i * 4) = a :: b :: c :: e :: rest → 1 ≤ m → m ≤ 17 → (17 - m) + 5 * rest.length + 1 ≤ fuel →
+      (Nack.collect d fuel (i, m) acc : R ε _)
+        = .ok (acc ++ (nackTail (a.toNat * 256 + b.toNat) (c.toNat * 256 + e.toNat) m).map Nat.toUInt16
+                ++ (nackDecode rest).map Nat.toUInt16, true)) := by
+  intro fuel
+  induction fuel with
+  | zero =>
+    exact ⟨fun i acc h => by omega, fun i m acc a b c e rest _ _ _ h => by omega⟩
+  | succ fuel ih =>
+    have P1 : ∀ (i : Nat) (acc : List UInt16), 5 * (d.length - 4 * i) + 1 ≤ fuel + 1 →
+        (Nack.collect d (fuel + 1) (i, 0) acc : R ε _)
+          = .ok (acc ++ (nackDecode (d.drop (i * 4))).map Nat.toUInt16, true) := by
+      intro i acc hf
+      by_cases hlt : i * 4 + 3 ≥ d.length
+      · rw [collect_none d fuel _ _ acc (next_end d i hlt)]
+        have : words32 (d.drop (i * 4)) = [] := words32_short (by simp; omega)
+        simp [nackDecode, this]
+      · obtain ⟨a, b, c, e, rest, hr⟩ := exists_cons4 (l := d.drop (i * 4)) (by simp; omega)
+        obtain ⟨_, hlen⟩ := drop_next hr
+        rw [collect_some d fuel _ _ _ acc (next_start d i hr),
+          ih.2 i 1 _ a b c e rest hr (Nat.le_refl _) (by omega) (by omega),
+          hr, nackDecode_cons4, decode_eq_tail]
+        simp
+    refine ⟨P1, ?_⟩
+    intro i m acc a b c e rest hr hm1 hm17 hf
+    obtain ⟨hdrop, hlen⟩ := drop_next hr
+    by_cases hm : m = 17
+    · subst hm
+      rw [collect_congr d fuel _ _ acc (next_wrap d i 17 (by omega)), P1 (i + 1) acc (by omega),
+        hdrop, nackTail_17]
+      simp
+    · have hspec := findBit_spec (a.toNat * 256 + b.toNat) (c.toNat * 256 + e.toNat) m hm1
+      have hnext := next_mid (ε := ε) d i m hm1 (by omega) hr
+      cases hfb : Nack.findBit (c.toNat * 256 + e.toNat) m with
+      | none =>
+        rw [hfb] at hspec hnext
+        simp only at hspec hnext
+        rw [collect_congr d fuel _ _ acc hnext, P1 (i + 1) acc (by omega), hdrop, hspec]
+        simp
+      | some j =>
+        rw [hfb] at hspec hnext
+        simp only at hspec hnext
+        obtain ⟨hj1, hj2, htail⟩ := hspec
+        rw [collect_some d fuel _ _ _ acc hnext,
+          ih.2 i (j + 1) _ a b c e rest hr (by omega) (by omega) (by omega), htail]
+        simp
+
 /-- NACK: the iterator yields, for every byte string, exactly the reference decoding, and stops -/
 theorem nack_entries_eq {ε : Type} (d : Bytes) :
     (Nack.entries d : R ε (List UInt16 × Bool)) = .ok ((nackDecode d).map Nat.toUInt16, true) := by
-  sorry
+  unfold Nack.entries
+  rw [(collect_spec d _).1 0 [] (by omega)]
+  simp
+
+/-! ## the greedy encoder decodes to its input -/
+
+theorem filter_or_pow (blp j : Nat) (hb : blp < 2 ^ j) (hj : j < 16) :
+    (List.range 16).filter (fun k => (blp ||| 2 ^ j).testBit k)
+      = (List.range 16).filter (fun k => blp.testBit k) ++ [j] := by
+  have hsplit : List.range 16 = List.range' 0 j ++ (j :: List.range' (j + 1) (15 - j)) := by
+    have e1 : (16 : Nat) = j + ((15 - j) + 1) := by omega
+    rw [List.range_eq_range']
+    conv => lhs; rw [e1]
+    rw [← List.range'_append_1, List.range'_succ, Nat.zero_add]
+  have hfalse : ∀ k, j ≤ k → blp.testBit k = false := fun k hk =>
+    Nat.testBit_lt_two_pow (Nat.lt_of_lt_of_le hb (Nat.pow_le_pow_right (by omega) hk))
+  rw [hsplit, List.filter_append, List.filter_append, List.filter_cons, List.filter_cons]
+  have h1 : (List.range' 0 j).filter (fun k => (blp ||| 2 ^ j).testBit k)
+      = (List.range' 0 j).filter (fun k => blp.testBit k) := by
+    apply List.filter_congr
+    intro k hk
+    have : k < j := by have := List.mem_range'_1.mp hk; omega
+    rw [Nat.testBit_or, Nat.testBit_two_pow]
+    have : decide (j = k) = false := decide_eq_false (by omega)
+    rw [this, Bool.or_false]
+  have h2 : (List.range' (j + 1) (15 - j)).filter (fun k => (blp ||| 2 ^ j).testBit k) = [] := by
+    rw [List.filter_eq_nil_iff]
+    intro k hk
+    have : j + 1 ≤ k := (List.mem_range'_1.mp hk).1
+    rw [Nat.testBit_or, Nat.testBit_two_pow, hfalse k (by omega)]
+    have : decide (j = k) = false := decide_eq_false (by omega)
+    simp [this]
+  have h3 : (List.range' (j + 1) (15 - j)).filter (fun k => blp.testBit k) = [] := by
+    rw [List.filter_eq_nil_iff]
+    intro k hk
+    have : j + 1 ≤ k := (List.mem_range'_1.mp hk).1
+    simp [hfalse k (by omega)]
+  have h4 : (blp ||| 2 ^ j).testBit j = true := by
+    rw [Nat.testBit_or, Nat.testBit_two_pow]; simp
+  rw [h1, h2, h3, h4, hfalse j (Nat.le_refl _)]
+  simp
+
+theorem decode_or (pid blp j : Nat) (hb : blp < 2 ^ j) (hj : j < 16) :
+    NackWord.decode ⟨pid, blp ||| 2 ^ j⟩ = NackWord.decode ⟨pid, blp⟩ ++ [(pid + j + 1) % 65536] := by
+  simp only [NackWord.decode, filter_or_pow blp j hb hj, List.map_append, List.map_cons, List.map_nil,
+    List.cons_append]
+
+theorem decode_zero (pid : Nat) : NackWord.decode ⟨pid, 0⟩ = [pid] := by
+  simp [NackWord.decode]
+
+/-- the words of the greedy encoder decode to the list they were made from -/
+theorem nackEncodeFrom_decode (rest : List Nat) : ∀ (pid blp hi : Nat),
+    pid ≤ hi → blp < 2 ^ (hi - pid) → (hi :: rest).Pairwise (· < ·) → (∀ s ∈ rest, s < 65536) →
+    ((nackEncodeFrom pid blp rest).map NackWord.decode).flatten = NackWord.decode ⟨pid, blp⟩ ++ rest := by
+  induction rest with
+  | nil => intro pid blp hi _ _ _ _; simp [nackEncodeFrom]
+  | cons s rest ih =>
+    intro pid blp hi hle hb hp hlt
+    have hs : hi < s := (List.pairwise_cons.mp hp).1 s (List.mem_cons_self ..)
+    have hp' : (s :: rest).Pairwise (· < ·) := (List.pairwise_cons.mp hp).2
+    have hlt' : ∀ x ∈ rest, x < 65536 := fun x hx => hlt x (List.mem_cons_of_mem _ hx)
+    have hs6 : s < 65536 := hlt s (List.mem_cons_self ..)
+    unfold nackEncodeFrom
+    split
+    · rw [List.map_cons, List.flatten_cons, ih s 0 s (Nat.le_refl _) (by simp) hp' hlt', decode_zero]
+      simp
+    · rename_i h16
+      rw [if_pos (by omega : s > pid)]
+      have hb' : blp < 2 ^ (s - pid - 1) :=
+        Nat.lt_of_lt_of_le hb (Nat.pow_le_pow_right (by omega) (by omega))
+      have hor : blp ||| 2 ^ (s - pid - 1) < 2 ^ (s - pid) := by
+        apply Nat.or_lt_two_pow
+        · exact Nat.lt_of_lt_of_le hb (Nat.pow_le_pow_right (by omega) (by omega))
+        · exact Nat.pow_lt_pow_right (by omega) (by omega)
+      rw [ih pid _ s (by omega) hor hp' hlt', decode_or pid blp _ hb' (by omega)]
+      have : (pid + (s - pid - 1) + 1) % 65536 = s := by
+        have : pid + (s - pid - 1) + 1 = s := by omega
+        rw [this]; exact Nat.mod_eq_of_lt hs6
+      rw [this]; simp
+
+theorem nackEncode_decode (l : List Nat) (h : l.Pairwise (· < ·)) (hb : ∀ s ∈ l, s < 65536) :
+    ((nackEncode l).map NackWord.decode).flatten = l := by
+  cases l with
+  | nil => simp [nackEncode]
+  | cons s rest =>
+    unfold nackEncode
+    rw [nackEncodeFrom_decode rest s 0 s (Nat.le_refl _) (by simp) h
+      (fun x hx => hb x (List.mem_cons_of_mem _ hx)), decode_zero]
+    simp
+
+theorem nackEncodeFrom_bounds (rest : List Nat) : ∀ (pid blp : Nat),
+    pid < 65536 → blp < 65536 → (∀ s ∈ rest, s < 65536) →
+    ∀ w ∈ nackEncodeFrom pid blp rest, w.pid < 65536 ∧ w.blp < 65536 := by
+  induction rest with
+  | nil => intro pid blp hp hb _ w hw; simp [nackEncodeFrom] at hw; subst hw; exact ⟨hp, hb⟩
+  | cons s rest ih =>
+    intro pid blp hp hb hlt w hw
+    have hlt' : ∀ x ∈ rest, x < 65536 := fun x hx => hlt x (List.mem_cons_of_mem _ hx)
+    have hs6 : s < 65536 := hlt s (List.mem_cons_self ..)
+    unfold nackEncodeFrom at hw
+    split at hw
+    · rcases List.mem_cons.mp hw with h | h
+      · subst h; exact ⟨hp, hb⟩
+      · exact ih s 0 hs6 (by omega) hlt' w h
+    · split at hw
+      · refine ih pid _ hp ?_ hlt' w hw
+        have : (65536 : Nat) = 2 ^ 16 := by decide
+        rw [this] at hb ⊢
+        apply Nat.or_lt_two_pow hb
+        exact Nat.pow_lt_pow_right (by omega) (by omega)
+      · exact ih pid blp hp hb hlt' w hw
+
+theorem nackDecode_image (ws : List NackWord) (h : ∀ w ∈ ws, w.pid < 65536 ∧ w.blp < 65536) :
+    nackDecode ((ws.map nackWordImage).flatten) = (ws.map NackWord.decode).flatten := by
+  induction ws with
+  | nil => simp [nackDecode, words32]
+  | cons w ws ih =>
+    have ⟨hp, hb⟩ := h w (List.mem_cons_self ..)
+    have ih' := ih (fun x hx => h x (List.mem_cons_of_mem _ hx))
+    unfold nackDecode at ih' ⊢
+    rw [List.map_cons, List.flatten_cons, List.map_cons, List.flatten_cons, ← ih']
+    simp only [nackWordImage, be16, List.cons_append, List.nil_append, words32, List.map_cons,
+      List.flatten_cons]
+    congr 2
+    cases w with
+    | mk pid blp =>
+      simp only at hp hb
+      simp only [Nat.toUInt16, Nat.toUInt8, UInt16.toNat_ofNat', UInt8.toNat_ofNat', NackWord.mk.injEq]
+      omega
 
 /-- NACK: exactly the set, ascending, each once -/
 theorem nack_roundtrip (seqs : List UInt16) (h : seqs.Pairwise (· < ·)) :
     nackDecode (nackImage ⟨seqs⟩) = seqs.map (·.toNat) := by
-  sorry
+  have hp : (seqs.map (·.toNat)).Pairwise (· < ·) := by
+    rw [List.pairwise_map]
+    exact h.imp (fun hab => UInt16.lt_iff_toNat_lt.mp hab)
+  have hb : ∀ s ∈ seqs.map (·.toNat), s < 65536 := by
+    intro s hs
+    obtain ⟨x, _, rfl⟩ := List.mem_map.mp hs
+    exact x.toNat_lt
+  unfold nackImage
+  rw [nackDecode_image, nackEncode_decode _ hp hb]
+  intro w hw
+  generalize seqs.map (·.toNat) = l at hw hb
+  cases l with
+  | nil => simp [nackEncode] at hw
+  | cons s rest =>
+    exact nackEncodeFrom_bounds rest s 0 (hb s (List.mem_cons_self ..)) (by omega)
+      (fun x hx => hb x (List.mem_cons_of_mem _ hx)) w hw
+
+/-! ## the greedy encoder: increasing PIDs, fewest words -/
+
+/-! ## the greedy encoder -/
+
+theorem nackEncodeFrom_pid_mem (rest : List Nat) : ∀ (pid blp : Nat) (w : NackWord),
+    w ∈ nackEncodeFrom pid blp rest → w.pid = pid ∨ w.pid ∈ rest := by
+  induction rest with
+  | nil => intro pid blp w hw; simp [nackEncodeFrom] at hw; simp [hw]
+  | cons s rest ih =>
+    intro pid blp w hw
+    unfold nackEncodeFrom at hw
+    split at hw
+    · rcases List.mem_cons.mp hw with h | h
+      · simp [h]
+      · rcases ih _ _ _ h with h | h <;> simp [h]
+    · split at hw
+      · rcases ih _ _ _ hw with h | h <;> simp [h]
+      · rcases ih _ _ _ hw with h | h <;> simp [h]
+
+theorem nackEncodeFrom_increasing (rest : List Nat) : ∀ (pid blp : Nat),
+    (pid :: rest).Pairwise (· < ·) → ((nackEncodeFrom pid blp rest).map (·.pid)).Pairwise (· < ·) := by
+  induction rest with
+  | nil => intro pid blp _; simp [nackEncodeFrom]
+  | cons s rest ih =>
+    intro pid blp h
+    have h1 : (s :: rest).Pairwise (· < ·) := (List.pairwise_cons.mp h).2
+    have h2 : (pid :: rest).Pairwise (· < ·) := by
+      rw [List.pairwise_cons] at h ⊢
+      exact ⟨fun a ha => h.1 a (List.mem_cons_of_mem _ ha), (List.pairwise_cons.mp h.2).2⟩
+    unfold nackEncodeFrom
+    split
+    · rw [List.map_cons, List.pairwise_cons]
+      refine ⟨?_, ih _ _ h1⟩
+      intro a ha
+      obtain ⟨w, hw, rfl⟩ := List.mem_map.mp ha
+      have := nackEncodeFrom_pid_mem rest s 0 w hw
+      have hm : w.pid ∈ s :: rest := by
+        rcases this with h | h
+        · simp [h]
+        · exact List.mem_cons_of_mem _ h
+      exact (List.pairwise_cons.mp h).1 _ hm
+    · split
+      · exact ih _ _ h2
+      · exact ih _ _ h2
 
 /-- NACK: the words are strictly increasing in PID -/
 theorem nack_words_increasing (l : List Nat) (h : l.Pairwise (· < ·)) :
     ((nackEncode l).map (·.pid)).Pairwise (· < ·) := by
-  sorry
+  cases l with
+  | nil => simp [nackEncode]
+  | cons s rest => exact nackEncodeFrom_increasing rest s 0 h
+
+theorem nackEncodeFrom_length (rest : List Nat) : ∀ (pid blp : Nat),
+    (nackEncodeFrom pid blp rest).length
+      = 1 + (nackEncode (rest.dropWhile (fun s => decide (s - pid ≤ 16)))).length := by
+  induction rest with
+  | nil => intro pid blp; simp [nackEncodeFrom, nackEncode]
+  | cons s rest ih =>
+    intro pid blp
+    unfold nackEncodeFrom
+    split
+    · rename_i hgt
+      have : decide (s - pid ≤ 16) = false := decide_eq_false (by omega)
+      rw [List.dropWhile_cons, this]
+      simp only [List.length_cons, nackEncode, Bool.false_eq_true, if_false]
+      omega
+    · rename_i hle
+      have : decide (s - pid ≤ 16) = true := decide_eq_true (by omega)
+      rw [List.dropWhile_cons, this]
+      simp only [if_true]
+      split
+      · exact ih _ _
+      · exact ih _ _
+
+theorem decode_mem_le (w : NackWord) (x : Nat) (hx : x ∈ w.decode) : x - w.pid ≤ 16 := by
+  unfold NackWord.decode at hx
+  rcases List.mem_cons.mp hx with h | h
+  · omega
+  · obtain ⟨k, hk, rfl⟩ := List.mem_map.mp h
+    have hk16 : k < 16 := by
+      have := (List.mem_filter.mp hk).1
+      simpa using this
+    have := Nat.mod_le (w.pid + k + 1) 65536
+    omega
+
+theorem suffix_append_cases {α : Type} (A B l' : List α) (h : l' <:+ A ++ B) :
+    l' <:+ B ∨ ∃ A', A' <:+ A ∧ l' = A' ++ B := by
+  induction A with
+  | nil => left; simpa using h
+  | cons a A ih =>
+    rw [List.cons_append, List.suffix_cons_iff] at h
+    rcases h with h | h
+    · right; exact ⟨a :: A, List.suffix_refl _, by simp [h]⟩
+    · rcases ih h with h | ⟨A', hA', hl⟩
+      · left; exact h
+      · right; exact ⟨A', hA'.trans (List.suffix_cons _ _), hl⟩
+
+theorem nack_minimal_aux (ws : List NackWord) : ∀ (l' : List Nat),
+    ((ws.map NackWord.decode).flatten).Pairwise (· < ·) →
+    l' <:+ (ws.map NackWord.decode).flatten →
+    (nackEncode l').length ≤ ws.length := by
+  induction ws with
+  | nil =>
+    intro l' _ hs
+    simp at hs
+    simp [hs, nackEncode]
+  | cons w ws ih =>
+    intro l' hp hs
+    rw [List.map_cons, List.flatten_cons] at hp hs
+    obtain ⟨hpw, hp1, _⟩ := List.pairwise_append.mp hp
+    cases l' with
+    | nil => simp [nackEncode]
+    | cons s rest =>
+      have hlen : (nackEncode (s :: rest)).length
+          = 1 + (nackEncode (rest.dropWhile (fun x => decide (x - s ≤ 16)))).length :=
+        nackEncodeFrom_length rest s 0
+      rw [hlen, List.length_cons]
+      have key : rest.dropWhile (fun x => decide (x - s ≤ 16)) <:+ (ws.map NackWord.decode).flatten := by
+        rcases suffix_append_cases _ _ _ hs with h | ⟨A', hA', hl⟩
+        · exact (List.dropWhile_suffix _).trans ((List.suffix_cons _ _).trans h)
+        · cases A' with
+          | nil =>
+            rw [List.nil_append] at hl
+            rw [← hl]
+            exact (List.dropWhile_suffix _).trans (List.suffix_cons _ _)
+          | cons a A'' =>
+            rw [List.cons_append] at hl
+            injection hl with h1 h2
+            subst h1
+            rw [h2]
+            have hsub : ∀ x ∈ s :: A'', x ∈ w.decode := fun x hx => hA'.subset hx
+            have hpid : w.pid ≤ s := by
+              have hs' := hsub s (List.mem_cons_self ..)
+              unfold NackWord.decode at hs' hpw
+              rcases List.mem_cons.mp hs' with h | h
+              · omega
+              · exact Nat.le_of_lt ((List.pairwise_cons.mp hpw).1 _ h)
+            rw [List.dropWhile_append_of_pos]
+            · exact List.dropWhile_suffix _
+            · intro x hx
+              have := decode_mem_le w x (hsub x (List.mem_cons_of_mem _ hx))
+              exact decide_eq_true (by omega)
+      have := ih _ hp1 key
+      omega
 
 /-- NACK: no list of words that decodes to the same ascending list is shorter -/
 theorem nack_minimal (l : List Nat) (h : l.Pairwise (· < ·)) (hb : ∀ s ∈ l, s < 65536)
     (ws : List NackWord) (hd : (ws.map NackWord.decode).flatten = l) :
     (nackEncode l).length ≤ ws.length := by
-  sorry
+  subst hd
+  exact nack_minimal_aux ws _ h (List.suffix_refl _)
 
 end Rtcp.Proofs
